@@ -1,7 +1,7 @@
 (** GENERATED on every run by tools/gen_consts.py from the Go source (non-test code of lib): every package-level string
     constant with the value the type checker gives it, and every non-zero floating-point literal with its exact decimal
-    value (numerator, denominator) and the binary64 the compiler rounds it to. *)
-From Coq Require Import List String ZArith Floats.
+    value (numerator, denominator). The binary64 the compiler rounds each literal to is in Gen/ConstsF.v. *)
+From Coq Require Import List String ZArith.
 Import ListNotations.
 Local Open Scope string_scope.
 
@@ -56,21 +56,21 @@ Definition go_string_consts : list (string * string * string) := [
   ("utils", "utils/linear-function.go:LinearFunctionName", "linear")
 ].
 
-(* package directory, file:function (or <package>.name), literal as written, (numerator, denominator), binary64 *)
-Definition go_float_literals : list (string * string * string * (Z * Z) * float) := [
-  ("logic/biases/anchoring", "logic/biases/anchoring/new-criterion-anchoring-applier.go:<package>._minAllowedWeight", "0.01", ((1)%Z, (100)%Z), (0x1.47ae147ae147bp-07)%float);
-  ("logic/biases/criteria-mixing", "logic/biases/criteria-mixing/criteria-mixing.go:parseProps", "0.5", ((1)%Z, (2)%Z), (0x1p-01)%float);
-  ("logic/biases/fatigue", "logic/biases/fatigue/fatigue.go:blurCriteriaValues", "0.5", ((1)%Z, (2)%Z), (0x1p-01)%float);
-  ("logic/biases/fatigue", "logic/biases/fatigue/fatigue.go:blurCriteriaValues", "1.0", ((1)%Z, (1)%Z), (0x1p+00)%float);
-  ("logic/limited-rationality/aspect-elimination", "logic/limited-rationality/aspect-elimination/aspect-elimination.go:sortCriteria", "0.5", ((1)%Z, (2)%Z), (0x1p-01)%float);
-  ("logic/limited-rationality/majority", "logic/limited-rationality/majority/draw-resolution.go:*RandomWinnerResolver.Resolve", "0.5", ((1)%Z, (2)%Z), (0x1p-01)%float);
-  ("logic/limited-rationality/majority", "logic/limited-rationality/majority/majority.go:<package>.eps", "1e-6", ((1)%Z, (1000000)%Z), (0x1.0c6f7a0b5ed8dp-20)%float);
-  ("logic/preference-func/choquet", "logic/preference-func/choquet/choquet-integral.go:computeTotalWeight", "0.00001", ((1)%Z, (100000)%Z), (0x1.4f8b588e368f1p-17)%float);
-  ("logic/preference-func/electreIII", "logic/preference-func/electreIII/distilation.go:<package>.DefaultDistillationFunc", "-.15", ((-3)%Z, (20)%Z), (-0x1.3333333333333p-03)%float);
-  ("logic/preference-func/electreIII", "logic/preference-func/electreIII/distilation.go:<package>.DefaultDistillationFunc", ".3", ((3)%Z, (10)%Z), (0x1.3333333333333p-02)%float);
-  ("model", "model/alternative.go:<package>.roundPrecision", "1e8", ((100000000)%Z, (1)%Z), (0x1.7d784p+26)%float);
-  ("model/criteria-bounding", "model/criteria-bounding/criteria-bounding.go:DefaultParams", "-1.0", ((-1)%Z, (1)%Z), (-0x1p+00)%float);
-  ("testUtils", "testUtils/test_utils.go:ValidateWeights", "1e-6", ((1)%Z, (1000000)%Z), (0x1.0c6f7a0b5ed8dp-20)%float);
-  ("utils", "utils/utils.go:Differs", "1e-8", ((1)%Z, (100000000)%Z), (0x1.5798ee2308c3ap-27)%float);
-  ("utils", "utils/utils.go:validateValue", "1e-6", ((1)%Z, (1000000)%Z), (0x1.0c6f7a0b5ed8dp-20)%float)
+(* package directory, file:function (or <package>.name), literal as written, (numerator, denominator) *)
+Definition go_float_literals : list (string * string * string * (Z * Z)) := [
+  ("logic/biases/anchoring", "logic/biases/anchoring/new-criterion-anchoring-applier.go:<package>._minAllowedWeight", "0.01", ((1)%Z, (100)%Z));
+  ("logic/biases/criteria-mixing", "logic/biases/criteria-mixing/criteria-mixing.go:parseProps", "0.5", ((1)%Z, (2)%Z));
+  ("logic/biases/fatigue", "logic/biases/fatigue/fatigue.go:blurCriteriaValues", "0.5", ((1)%Z, (2)%Z));
+  ("logic/biases/fatigue", "logic/biases/fatigue/fatigue.go:blurCriteriaValues", "1.0", ((1)%Z, (1)%Z));
+  ("logic/limited-rationality/aspect-elimination", "logic/limited-rationality/aspect-elimination/aspect-elimination.go:sortCriteria", "0.5", ((1)%Z, (2)%Z));
+  ("logic/limited-rationality/majority", "logic/limited-rationality/majority/draw-resolution.go:*RandomWinnerResolver.Resolve", "0.5", ((1)%Z, (2)%Z));
+  ("logic/limited-rationality/majority", "logic/limited-rationality/majority/majority.go:<package>.eps", "1e-6", ((1)%Z, (1000000)%Z));
+  ("logic/preference-func/choquet", "logic/preference-func/choquet/choquet-integral.go:computeTotalWeight", "0.00001", ((1)%Z, (100000)%Z));
+  ("logic/preference-func/electreIII", "logic/preference-func/electreIII/distilation.go:<package>.DefaultDistillationFunc", "-.15", ((-3)%Z, (20)%Z));
+  ("logic/preference-func/electreIII", "logic/preference-func/electreIII/distilation.go:<package>.DefaultDistillationFunc", ".3", ((3)%Z, (10)%Z));
+  ("model", "model/alternative.go:<package>.roundPrecision", "1e8", ((100000000)%Z, (1)%Z));
+  ("model/criteria-bounding", "model/criteria-bounding/criteria-bounding.go:DefaultParams", "-1.0", ((-1)%Z, (1)%Z));
+  ("testUtils", "testUtils/test_utils.go:ValidateWeights", "1e-6", ((1)%Z, (1000000)%Z));
+  ("utils", "utils/utils.go:Differs", "1e-8", ((1)%Z, (100000000)%Z));
+  ("utils", "utils/utils.go:validateValue", "1e-6", ((1)%Z, (1000000)%Z))
 ].
